@@ -14,9 +14,9 @@ if [ ! -f /tmp/seed-baseline-lib.txt ]; then
 fi
 place_demo() {
   if [ "$KIND" = tests ]; then cp $SEED/demo.rs tests/$NAME.rs
-  else python3 - "$SEED/demo.rs" <<'PY'
+  else python3 - "$SEED/demo.rs" "${LIBFILE:-src/metastore/gravitino.rs}" <<'PY'
 import sys,re
-p='src/metastore/gravitino.rs'
+p=sys.argv[2]
 s=open(p).read()
 demo=open(sys.argv[1]).read()
 i=s.rstrip().rfind('}')
